@@ -616,6 +616,11 @@ rfbClientConnectionGone(rfbClientPtr cl)
         free(cl->wsctx);
         cl->wsctx = NULL;
     }
+#ifdef LIBVNCSERVER_WITH_WEBSOCKETS
+    /* still set when the client was never closed with rfbCloseClient() (rfbScreenCleanup) */
+    free(cl->wspath);
+    cl->wspath = NULL;
+#endif
 
 #ifdef LIBVNCSERVER_HAVE_LIBZ
     /* Release the compression state structures if any. */
